@@ -323,3 +323,6 @@ pub fn touch_samples(buf: &[f32]) {
 
 /// Panics raised inside tasks of the real rayon pool of a C02 run (swallowed by the pool's panic handler).
 pub static POOL_TASK_PANICS: std::sync::atomic::AtomicU64 = std::sync::atomic::AtomicU64::new(0);
+
+/// Calls declared hung by the watchdog in this process (each leaks its thread).
+pub static HANGS: std::sync::atomic::AtomicU64 = std::sync::atomic::AtomicU64::new(0);
